@@ -591,12 +591,25 @@ def run(ctx, replay=None):
                 "and the conditioning-scaled tolerance of the dense reference is below 1e-4 of the prediction scale "
                 "(so a wrong formula cannot hide in the tolerance); distinct by content hash")
     rng = ctx.rng
+    import gplin_composite
+    ctx.rule += ("; PLUS composite kernels (WarpedKernel with 1..3 Warping blocks incl. non-contiguous ranges and "
+                 "Kumaraswamy parameters away from 1, ProductKernelFunction, RangeKernelFunction, "
+                 "ExponentialDecayResourcesKernelFunction as plain kernels): kernel matrices, predict, likelihood, "
+                 "incremental-vs-scratch against an independent numpy implementation (no Coq model for these)")
     if replay is not None:
+        if replay.get("kind") == "gpc":
+            import warnings
+            with warnings.catch_warnings():
+                warnings.simplefilter("ignore")
+                gplin_composite.run_case(ctx, replay["spec"])
+            return
         if replay.get("kind") != "gp":
             return
         specs = [replay["spec"]]
+        cspecs = []
     else:
         specs = [gen_spec(rng) for _ in range(ctx.n(400, 3000))]
+        cspecs = [gplin_composite.gen_spec(rng) for _ in range(ctx.n(250, 2000))]
     cases_k, cases_g, meta, kmeta, jit_cases, jit_meta = [], [], [], [], [], []
     import warnings
     with warnings.catch_warnings():
@@ -606,6 +619,12 @@ def run(ctx, replay=None):
             if info is not None:
                 ctx.sample(dict(kind="gp", n=info["n"], d=info["d"], fantasies=info["m"], cond=info["cond"],
                                 impl_mean_0_0=info["mean0"], impl_var_0=info["var0"], impl_nlml=info["nlml"]))
+        nsamp = 0
+        for cspec in cspecs:
+            info = gplin_composite.run_case(ctx, cspec)
+            if info is not None and info["sub"] == "warp" and info["warping_blocks"] >= 2 and nsamp < 1:
+                nsamp += 1
+                ctx.samples.insert(0, info)
     for i in ctx.coq_bad_cases("kernel", IMPORTS, PRELUDE, "chk_kernel", cases_k, shard=40):
         ctx.violation("correspondence", "model Matern-5/2 kernel matrix differs from Matern52.forward/diagonal "
                       "beyond round-off", case=kmeta[i], failing_input=False,
